@@ -229,8 +229,40 @@ def _is_mutable(t, mutable):
     return t in mutable
 
 
+INPLACE_DUNDERS = ("__iadd__", "__isub__", "__imul__", "__itruediv__", "__ifloordiv__", "__imod__", "__ipow__", "__iand__", "__ior__", "__ixor__", "__imatmul__",
+                   "__ilshift__", "__irshift__")
+VALUE_CLASSES = (("src/scinumtools/units/fraction.py", "Fraction"), ("src/scinumtools/units/magnitude.py", "Magnitude"), ("src/scinumtools/units/dimensions.py", "Dimensions"),
+                 ("src/scinumtools/units/base_units.py", "BaseUnits"), ("src/scinumtools/units/quantity.py", "Quantity"))
+
+
+def r4_value_objects(ctx):
+    """Exponents, magnitudes, dimension vectors and unit tables are shared freely between an operand and a result
+    (shallow dict copies, `baseunits = left.baseunits`) because every operator on them returns a new object.  An
+    in-place operator method (`__iadd__`, `__imul__`, ...) that changes self turns every `x[k] += y` / `x.f *= y`
+    on such a shared object into a mutation of the operand; without the method Python rebinds the slot to a new object."""
+    n = 0
+    for rel, cname in VALUE_CLASSES:
+        c = ctx.repo.cls(rel, cname)
+        ms = methods(c)
+        n += 1
+        for d in INPLACE_DUNDERS:
+            fn = ms.get(d)
+            if fn is None:
+                continue
+            writes = [x for x in ast.walk(fn) if isinstance(x, (ast.Attribute, ast.Subscript)) and isinstance(x.ctx, (ast.Store, ast.Del))
+                      and isinstance(x.value, ast.Name) and x.value.id == fn.args.args[0].arg]
+            if writes:
+                ctx.violated(rel, f"{cname}.{d}", "value objects have no in-place operator that changes self (augmented assignment on a shared exponent/magnitude rebinds, never mutates)",
+                             detail=[ast.unparse(w) for w in writes][:3], expected=f"no {d}: `a {d[3:-2]}= b` then evaluates a = a.__{d[3:]}(b) and rebinds")
+            else:
+                ctx.form(False, rel, f"{cname}.{d}", "in-place operator present: whether it changes self is not decided here")
+    ctx.floor("value classes scanned for in-place operators", n, 5)
+    ctx.holds("-", "-", "scan of the value classes for in-place operator methods completed")
+
+
 RULES = [
     ("C07.R1", "no operator, comparison, NumPy hook/function or query method writes (directly or through any callee) to an object reachable from one of its parameters", r1_no_operand_mutation),
     ("C07.R2", "the in-place methods to/rebase/abse(x)/rele(x) write only the named fields of self", r2_inplace_api),
     ("C07.R3", "results keep no alias to an operand-reachable object of a class that anything outside its constructor mutates (or of array/dict/list/unknown type)", r3_no_shared_mutable_state),
+    ("C07.R4", "the value classes (Fraction, Magnitude, Dimensions, BaseUnits, Quantity) define no in-place operator method that changes self: augmented assignment on shared exponents and magnitudes rebinds", r4_value_objects),
 ]
